@@ -301,6 +301,25 @@ func runC01(p *core.Prog, r *core.Result) {
 				return
 			}
 			fromEval := m.Evaluate != nil && st.Val == extractOf(m.Evaluate, 1)
+			if prm, isParam := st.Val.(*ssa.Parameter); isParam && m.Evaluate != nil && !fromEval {
+				// a record helper (recordSuccess(…, changed, …)): every caller hands it true or the evaluation's result
+				sites := p.StaticCallers(fn)
+				i := paramIndex(fn, prm)
+				fromEval = len(sites) > 0 && i >= 0
+				for _, cs := range sites {
+					if !fromEval || i >= len(cs.Common().Args) {
+						fromEval = false
+						break
+					}
+					a := cs.Common().Args[i]
+					if b, isConst := core.ConstBool(a); isConst && b {
+						continue
+					}
+					if a != extractOf(m.Evaluate, 1) {
+						fromEval = false
+					}
+				}
+			}
 			r.Check(fromEval, "R1.10", construct, p.InstrPos(st), "takes the changed result of the evaluation just performed (always true on success, R13.2)", "the changed flag is assigned something other than true or the result of the evaluation just performed")
 		})
 	}
@@ -683,12 +702,24 @@ func provablyNonEmptyString(v ssa.Value) bool {
 // checkStampDependsOnDeps: R1.3.
 func checkStampDependsOnDeps(p *core.Prog, r *core.Result, m *evalModel, rule string) {
 	evalErr := extractOf(m.Evaluate, 2)
-	depends := func(v ssa.Value) bool {
+	var site ssa.CallInstruction // the record write under examination
+	var depends func(v ssa.Value) bool
+	dependsIn := func(v ssa.Value, depth int) bool { return false }
+	dependsIn = func(v ssa.Value, depth int) bool {
 		return core.DependsOn(v, core.SliceOpts{Stores: true, ThroughCall: func(c *ssa.Call) bool { return core.Callee(c) != nil }}, func(x ssa.Value) bool {
 			// a parameter of the body helper stands for the argument Evaluate passes
 			if prm, ok := x.(*ssa.Parameter); ok && m.BodySite != nil && prm.Parent() == m.BodyFn {
 				if i := paramIndex(m.BodyFn, prm); i >= 0 && i < len(m.BodySite.Call.Args) {
 					x = m.BodySite.Call.Args[i]
+				}
+			}
+			// inside a record helper (recordSuccess(info, data, changed, depStamps)) a parameter stands for the argument at
+			// the helper's call in Evaluate
+			if prm, ok := x.(*ssa.Parameter); ok && site != nil && depth < 2 {
+				if h := core.Callee(site); h != nil && h != m.Save && prm.Parent() == h {
+					if i := paramIndex(h, prm); i >= 0 && i < len(site.Common().Args) && dependsIn(site.Common().Args[i], depth+1) {
+						return true
+					}
 				}
 			}
 			if m.DepDataEv != nil && x == m.DepDataEv || m.DepData != nil && x == m.DepData {
@@ -705,9 +736,11 @@ func checkStampDependsOnDeps(p *core.Prog, r *core.Result, m *evalModel, rule st
 			return false
 		})
 	}
+	depends = func(v ssa.Value) bool { return dependsIn(v, 0) }
 	n := 0
 	for _, w := range m.recordWrites() {
 		s, lit := w.Site, w.Lit
+		site = s
 		nn, known := p.FactsAt(s).ErrNonNil(evalErr)
 		if !known || nn {
 			continue
